@@ -60,9 +60,16 @@ pub fn seed_scenario(t: &PoolText, seed: u64, h: u64, n: u64) -> Scenario {
     let f = flags(&mut rng);
     let name = rng.pick(&["g.lalrpop", "sub/dir/parser.lalrpop", "Other_Name9.lalrpop", "a/very/deeply/nested/directory/structure/indeed/x.lalrpop", "ünï/grämmar.lalrpop"]).to_string();
     let cp = clock_pid(&mut rng);
+    // the same file reached through different spellings and from different working directories
+    let (spelled, cwd) = match rng.below(5) {
+        0 => (format!("{{ROOT}}/{name}"), String::new()),
+        1 => (format!("../{name}"), "elsewhere".to_string()),
+        2 => (format!("./{name}"), String::new()),
+        _ => (name.clone(), String::new()),
+    };
     let node = NodeSpec {
-        kind: NodeKind::Api { calls: vec![CallSpec { entry: "process_file".into(), path: Some(name.clone()), ..f }] },
-        cwd: String::new(),
+        kind: NodeKind::Api { calls: vec![CallSpec { entry: "process_file".into(), path: Some(spelled), ..f }] },
+        cwd,
         env: noise(&mut rng),
         hashseed: h,
         faults: vec![],
@@ -86,7 +93,8 @@ pub fn batch_scenario(pool: &Pool, t: &PoolText, seed: u64, n: u64) -> Scenario 
     let f = flags(&mut rng);
     let others = pool.valid_small();
     let cp = clock_pid(&mut rng);
-    let k = rng.range(1, 4) as usize;
+    // mostly small batches; now and then a long one (state that grows with the number of files)
+    let k = if rng.chance(1, 6) { rng.range(10, 16) as usize } else { rng.range(1, 4) as usize };
     let pos = rng.below(3);
     let target_name = match pos {
         0 => "aaa_target.lalrpop",
@@ -146,6 +154,10 @@ pub fn order_scenario(pool: &Pool, t: &PoolText, seed: u64, n: u64) -> Scenario 
     let use_cli = rng.chance(1, 5) && !calls.iter().any(|c| c.path.as_deref().map(|p| p.contains("/e_")).unwrap_or(false));
     let kind = if use_cli {
         let mut args: Vec<String> = vec!["-f".into()];
+        if rng.chance(1, 2) {
+            args.push("-l".into());
+            args.push(rng.pick(&["quiet", "info", "verbose", "debug"]).to_string());
+        }
         if calls[0].comments {
             args.push("--comments".into());
         }
